@@ -8,6 +8,7 @@ mod events;
 mod exec;
 mod gen;
 mod hooks;
+mod http;
 mod minimize;
 mod model;
 mod node;
